@@ -1,6 +1,7 @@
 package simrt
 
 import (
+	"runtime"
 	"errors"
 	"fmt"
 	"io"
@@ -478,6 +479,11 @@ func (e *End) Close() error {
 		return net.ErrClosed
 	}
 	e.closed = true
+	if s.DebugElig {
+		buf := make([]byte, 4096)
+		n := runtime.Stack(buf, false)
+		s.Trace = append(s.Trace, fmt.Sprintf("   %s closed at %v by:\n%s", e.Name, time.Since(s.Start), buf[:n]))
+	}
 	e.CloseStep = s.step
 	if e.CloseStep == 0 {
 		e.CloseStep = -1
